@@ -85,10 +85,40 @@ typedef struct fx {
     char path_cal[720], path_badcal[720], path_vercal[720], path_npd[720],
 	 path_s2p[720], path_bad[720], path_none[720], path_nodir[720],
 	 path_out[720], path_yaml[720], path_dig[720];
+    char path_mal[8][720];	/* malformed data files, see fx_malformed[] */
     void *blocks[160];
     int nblocks;
     int built;
 } fx_t;
+
+/* malformed data files with the errno class the manual gives their fault */
+static const struct { const char *name, *ext, *text; int em; } fx_malformed[] = {
+    { "ts2-h-one-port", "ts",
+	"[Version] 2.0\n# Hz H RI R 50\n[Number of Ports] 1\n"
+	"[Number of Frequencies] 1\n[Network Data]\n1e9 0.5 0.1\n[End]\n",
+	EM_BADMSG },
+    { "ts2-g-three-port", "ts",
+	"[Version] 2.0\n# Hz G RI R 50\n[Number of Ports] 3\n"
+	"[Number of Frequencies] 1\n[Network Data]\n"
+	"1e9 1 2 3 4 5 6\n7 8 9 10 11 12\n13 14 15 16 17 18\n[End]\n",
+	EM_BADMSG },
+    { "ts1-h-three-port", "s3p",
+	"# Hz H RI R 50\n1e9 1 2 3 4 5 6\n7 8 9 10 11 12\n13 14 15 16 17 18\n",
+	EM_BADMSG },
+    { "ts2-version-3", "ts",
+	"[Version] 3.0\n# Hz S RI R 50\n[Number of Ports] 1\n"
+	"[Number of Frequencies] 1\n[Network Data]\n1e9 0.5 0.1\n[End]\n",
+	EM_PROTO },
+    { "npd-version-9", "npd",
+	"#NPD\n#:version 9.9\n#:ports 1\n#:frequencies 1\n"
+	"#:parameters Sri\n#:z0 50.0 +0.0j\n1.0e+09 0.5 0.1\n", EM_PROTO },
+    { "npd-three-port-sri-tri", "npd",
+	"#NPD\n#:version 1.0\n#:ports 3\n#:frequencies 1\n"
+	"#:parameters Sri,Tri\n#:z0 50.0 +0.0j 50.0 +0.0j 50.0 +0.0j\n"
+	"1.0e+09 1 2 3 4 5 6 7 8 9 10 11 12 13 14 15 16 17 18 "
+	"1 2 3 4 5 6 7 8 9 10 11 12 13 14 15 16 17 18\n", EM_BADMSG },
+};
+#define FX_NMALFORMED ((int)(sizeof(fx_malformed) / sizeof(fx_malformed[0])))
 
 /* the vnacal_new_t objects of the fixture, by variant number */
 enum { VN_L, VN_R, VN_T16, VN_U16, VN_S, VN_A5, VN_A3, VN_A1, VN_T16M, VN_N };
@@ -212,6 +242,11 @@ static const char *fx_build(fx_t *F)
     snprintf(F->path_npd, sizeof(F->path_npd), "%s", vf_tmp("c03.npd"));
     snprintf(F->path_s2p, sizeof(F->path_s2p), "%s", vf_tmp("c03.s2p"));
     snprintf(F->path_bad, sizeof(F->path_bad), "%s", vf_tmp("c03bad.s2p"));
+    for (int i = 0; i < FX_NMALFORMED; ++i) {
+	char nm[64];
+	snprintf(nm, sizeof(nm), "c03mal%d.%s", i, fx_malformed[i].ext);
+	snprintf(F->path_mal[i], sizeof(F->path_mal[i]), "%s", vf_tmp(nm));
+    }
     snprintf(F->path_none, sizeof(F->path_none), "%s", vf_tmp("c03none.npd"));
     snprintf(F->path_nodir, sizeof(F->path_nodir), "%s",
 	    vf_tmp("c03-no-such-dir/x.npd"));
@@ -434,6 +469,8 @@ static const char *fx_build(fx_t *F)
     if (vnadata_save(F->vd, F->path_npd) != 0)
 	return "vnadata_save npd";
     fx_write(F->path_bad, "# GHz S RI R 50\n1.0 0.1 0.2 zzz 0.4\n2.0 0.1\n");
+    for (int i = 0; i < FX_NMALFORMED; ++i)
+	fx_write(F->path_mal[i], fx_malformed[i].text);
     fx_write(F->path_badcal, "#VNACal 1.0\ncalibrations: [ { name: \n  ]]\n");
     fx_write(F->path_vercal, "#VNACal 99.0\ncalibrations: []\n");
     fx_write(F->path_yaml, "a: 1\nb: [x, y]\nc: { d: e }\n");
@@ -459,6 +496,8 @@ static void fx_teardown(fx_t *F)
     unlink(F->path_cal); unlink(F->path_dig); unlink(F->path_badcal);
     unlink(F->path_vercal); unlink(F->path_npd); unlink(F->path_s2p);
     unlink(F->path_bad); unlink(F->path_out); unlink(F->path_yaml);
+    for (int i = 0; i < FX_NMALFORMED; ++i)
+	unlink(F->path_mal[i]);
     memset(F, 0, sizeof(*F));
 }
 
